@@ -86,6 +86,7 @@ FR = [
     "```{eval-rst}\n.. _rt:\n\nrstp\n```\n", "[](#rt)\n", "$$x$$ (lbl)\n", "$$y$$ (lbl)\n", "Term\n: def\n", ":f: v\n", "{abbr}`x (y)`\n", "{nosuch}`x`\n", "![a](b){#i}\n",
     "{#i}\n# Hid\n", "> ## Hq\n", "```{note}\n---\n```\n", "```{note}\n# Hn\n\n---\n\ntail\n```\n", "[t]: http://u\n\n[x][t] [y][nodef]\n", "```{figure} f.png\n:name: fig1\n\ncap\n```\n",
     "[](#fig1)\n", "```{table} T\n:name: tbl\n\n|a|\n|-|\n|1|\n```\n", "***\n\n***\n", "<div class=\"admonition\" name=\"n1\">\n<p>hn</p>\n</div>\n", "- [ ] task\n", "+++\n",
+    "[^a]: A\n\n(a)=\npara named a\n", "[^a]: A\n\n```{note}\n:name: a\nn\n```\n", "![see [^a]](img.png)\n", "![a [b]{#x}](i.png)\n\n[l](#x)\n", "![alt (t)= {#i}](i.png){#img}\n",
     "(t2)=\n## Titled target\n", "[](#t2) and [](#t2) and <project:#t2>\n", "[](#fig1) [](#fig1)\n", "[](#h) [](#h)\n", "x[^a] y[^a]\n",
 ]
 
